@@ -210,18 +210,23 @@ class Ctx:
         if not records:
             return []
         n = len(records)
-        shards = max(1, min(shards or NCPU, (n + 49) // 50, NCPU))
+        lines = [json.dumps(r, separators=(",", ":")) for r in records]
+        total = sum(len(x) for x in lines)
+        want = shards or NCPU
+        if shards is None:
+            want = max(want, total // (12 << 20) + 1)       # at most ~12 MB of JSON per TLC process (3 GB heap each)
+        shards = max(1, min(want, (n + 49) // 50 if shards is None else want, 256))
         per = (n + shards - 1) // shards
         d = self.sub("trace_" + module)
         jobs = []
         for k in range(shards):
-            part = records[k * per:(k + 1) * per]
+            part = lines[k * per:(k + 1) * per]
             if not part:
                 continue
             tp = os.path.join(d, "trace_%d.ndjson" % k)
             with open(tp, "w") as f:
                 for r in part:
-                    f.write(json.dumps(r, separators=(",", ":")) + "\n")
+                    f.write(r + "\n")
             jobs.append((k, tp, os.path.join(d, "out_%d.ndjson" % k), len(part)))
 
         def one(job):
@@ -229,7 +234,8 @@ class Ctx:
             r = self.tlc(module, cfg or module + ".cfg", workers=1, env={"VERIF_TRACE": tp, "VERIF_OUT": op},
                          timeout=timeout, heap=heap, must_pass=False, record=False, dfs=dfs)
             if not r.ok or not os.path.exists(op):
-                raise Machinery("trace validation %s shard %d did not complete:\n%s" % (module, k, r.out[-5000:]))
+                err = [x for x in r.out.splitlines() if "rror" in x or "xception" in x or "heap" in x][:8]
+                raise Machinery("trace validation %s shard %d did not complete: %s\n%s" % (module, k, err, r.out[-3000:]))
             lines = [json.loads(x) for x in open(op) if x.strip()]
             if not lines or lines[0].get("consumed") != cnt:
                 raise Machinery("trace validation %s shard %d consumed %s of %d records" % (module, k, lines[:1], cnt))
@@ -237,7 +243,7 @@ class Ctx:
 
         bad = []
         t = time.time()
-        with cf.ThreadPoolExecutor(max_workers=len(jobs)) as ex:
+        with cf.ThreadPoolExecutor(max_workers=min(len(jobs), NCPU)) as ex:
             for res in ex.map(one, jobs):
                 bad += res
         self.cov["traces_validated_against_impl"] += n
